@@ -68,7 +68,7 @@ def chip_state(draw, shared_states):
 @st.composite
 def strat_state(draw, tier):
     big = tier == "thorough"
-    sparse = big and draw(st.integers(0, 3)) == 0
+    sparse = draw(st.integers(0, 3 if big else 7)) == 0
     if sparse:
         w = draw(st.integers(1, 255))
         h = draw(st.integers(1, 255))
@@ -420,7 +420,7 @@ def check_state(case):
 CLAUSES = [
     Clause("probe", check_state, strategy=strat_state,
            rule="generated machine states (up to 6x6 / 12x12 dense, sparse "
-                "populations in up to 255x255 addressing in thorough; dead "
+                "populations in up to 255x255 addressing; dead "
                 "and silent chips, per-chip links, core counts and states "
                 "incl. states shared by every chip, free-memory and router "
                 "figures, Ethernet details, IOBUF chains of 0-4 blocks, all "
